@@ -1,8 +1,13 @@
 (* C18 -- unary operators and casts are analysed as their documented rewriting.  Statements only.
    (A cast of a whole right-hand side or of an operand is looked through by the reader tools/cread.py
    exactly where Analysis.compute_relation / rm_cast do; the metamorphic twin runs of tools/props/c18.py
-   check its transparency on the real tool.) *)
+   check its transparency on the real tool.)
+   Casts in the DISPATCH of compute_relation (model Syntax.cr_step over pycparser trees), for all trees:
+   one cast around a whole right-hand side leaves the kinds of the events unchanged -- one level only,
+   `x = (int)(int)y` is warned about and skipped; casts around the operands of a binary operation are removed
+   by rm_cast, any number of them; a cast STATEMENT `(T)x++;` is warned about and skipped. *)
 From Coq Require Import String List Bool.
+From PM Require Import Tree Syntax Syntax_proofs_cast.
 From PM Require Import Semiring Poly Rel Analysis Calculus An_unary.
 Import ListNotations.
 Open Scope string_scope.
@@ -40,8 +45,86 @@ Theorem C18_unsupported_unary_assignment_is_skipped : forall fuel index x op e d
   compute (S fuel) index (SUnAsg x op e) d = skip index d.
 Proof. exact unary_asgn_unsupported_is_skip. Qed.
 
+(* ---------- casts: the dispatch ---------- *)
+Theorem C18_cast_of_whole_right_side_is_transparent : forall a lv c e,
+  kid1 c "expr" = Some e /\ is_cls "Cast" c = true ->
+  is_cls "Cast" e = false ->
+  map ekind_of (cr_events (Node "Assignment" a [("lvalue", [lv]); ("rvalue", [c])])) =
+  map ekind_of (cr_events (Node "Assignment" a [("lvalue", [lv]); ("rvalue", [e])])).
+Proof. exact Syntax_proofs_cast.cast_rhs_transparent. Qed.
+
+(* the weakest side condition *)
+Theorem C18_cast_of_whole_right_side_transparent_iff : forall a lv c e,
+  kid1 c "expr" = Some e /\ is_cls "Cast" c = true ->
+  (map ekind_of (cr_events (Node "Assignment" a [("lvalue", [lv]); ("rvalue", [c])])) =
+   map ekind_of (cr_events (Node "Assignment" a [("lvalue", [lv]); ("rvalue", [e])]))
+   <->
+   is_cls "ID" lv = false \/ is_cls "Cast" e = false \/
+   map ekind_of (cr_events (Node "Assignment" a [("lvalue", [lv]); ("rvalue", [e])])) = [KUnsupported]).
+Proof. exact Syntax_proofs_cast.cast_rhs_transparent_iff. Qed.
+
+(* x = (int)(int)y is skipped with a warning, x = (int)y is a flow *)
+Theorem C18_cast_twice_not_transparent :
+  let e := cast_ (id_ "y") in
+  let c := cast_ e in
+  wf_pyc (asg_ (id_ "x") c) = true /\
+  (kid1 c "expr" = Some e /\ is_cls "Cast" c = true) /\
+  map ekind_of (cr_events (asg_ (id_ "x") c)) = [KUnsupported] /\
+  map ekind_of (cr_events (asg_ (id_ "x") e)) = [KFlow] /\
+  map ekind_of (cr_events (asg_ (id_ "x") c)) <> map ekind_of (cr_events (asg_ (id_ "x") e)).
+Proof. exact Syntax_proofs_cast.cast_twice_not_transparent. Qed.
+
+Theorem C18_binary_op_reads_operands_through_rm_cast : forall rv rv',
+  orm_cast (kid1 rv "left") = orm_cast (kid1 rv' "left") ->
+  orm_cast (kid1 rv "right") = orm_cast (kid1 rv' "right") ->
+  binary_op_events rv = binary_op_events rv'.
+Proof. exact Syntax_proofs_cast.binary_op_events_rm_cast. Qed.
+
+Theorem C18_rm_cast_removes_a_cast : forall c e,
+  is_cls "Cast" c = true -> kid1 c "expr" = Some e -> rm_cast c = rm_cast e.
+Proof. exact Syntax_proofs_cast.rm_cast_cast. Qed.
+
+Theorem C18_rm_cast_keeps_other_nodes : forall n, is_cls "Cast" n = false -> rm_cast n = n.
+Proof. exact Syntax_proofs_cast.rm_cast_not_cast. Qed.
+
+Theorem C18_rm_cast_idempotent : forall n, rm_cast (rm_cast n) = rm_cast n.
+Proof. exact Syntax_proofs_cast.rm_cast_idem. Qed.
+
+(* [casts_of e w]: w is e under any number of casts *)
+Theorem C18_casts_of_operands_are_transparent : forall a a' l r l' r',
+  casts_of l l' -> casts_of r r' ->
+  binary_op_events (Node "BinaryOp" a' [("left", [l']); ("right", [r'])]) =
+  binary_op_events (Node "BinaryOp" a [("left", [l]); ("right", [r])]).
+Proof. exact Syntax_proofs_cast.binary_op_cast_operands. Qed.
+
+Theorem C18_cast_operands_statement : forall a ab i j t x l r,
+  cr_events (Node "Assignment" a [("lvalue", [id_ x]); ("rvalue", [Node "BinaryOp" ab [("left", [cast_n i t l]); ("right", [cast_n j t r])]])]) =
+  cr_events (Node "Assignment" a [("lvalue", [id_ x]); ("rvalue", [Node "BinaryOp" ab [("left", [l]); ("right", [r])]])]).
+Proof. exact Syntax_proofs_cast.cast_operands_statement. Qed.
+
+Theorem C18_cast_statement_is_skipped : forall a ks, cr_events (Node "Cast" a ks) = [Ev KUnsupported []].
+Proof. exact Syntax_proofs_cast.cast_statement_is_skipped. Qed.
+
+(* (int)x++; against x++; *)
+Theorem C18_cast_statement_not_transparent :
+  let s := Node "UnaryOp" [("op", "p++")] [("expr", [id_ "x"])] in
+  wf_pyc (cast_ s) = true /\
+  cr_events (cast_ s) = [Ev KUnsupported []] /\ cr_events s = [Ev KFlow []].
+Proof. exact Syntax_proofs_cast.cast_statement_not_transparent. Qed.
+
 Print Assumptions C18_unary_assignment_is_its_rewriting.
 Print Assumptions C18_documented_rewritings.
 Print Assumptions C18_standalone_increment_decrement.
 Print Assumptions C18_other_standalone_unary_has_no_effect.
 Print Assumptions C18_unsupported_unary_assignment_is_skipped.
+Print Assumptions C18_cast_of_whole_right_side_is_transparent.
+Print Assumptions C18_cast_of_whole_right_side_transparent_iff.
+Print Assumptions C18_cast_twice_not_transparent.
+Print Assumptions C18_binary_op_reads_operands_through_rm_cast.
+Print Assumptions C18_rm_cast_removes_a_cast.
+Print Assumptions C18_rm_cast_keeps_other_nodes.
+Print Assumptions C18_rm_cast_idempotent.
+Print Assumptions C18_casts_of_operands_are_transparent.
+Print Assumptions C18_cast_operands_statement.
+Print Assumptions C18_cast_statement_is_skipped.
+Print Assumptions C18_cast_statement_not_transparent.
